@@ -58,6 +58,12 @@ impl SwiftField for Field61 {
                 message: "Field 61 must be at least 15 characters long".to_string(),
             });
         }
+        // the components are cut out by byte position: only ASCII content can be sliced safely
+        if !input.is_ascii() {
+            return Err(ParseError::InvalidFormat {
+                message: "Field 61 must contain only ASCII characters".to_string(),
+            });
+        }
 
         let mut pos = 0;
 
